@@ -255,6 +255,35 @@ fn alias_never_equals_existing() { alias_never_equals_existing_check::<5>(); }
 #[kani::stub(core::slice::memchr::memrchr, crate::verif_support::stubs::memrchr)]
 fn alias_never_equals_existing_8bytes() { alias_never_equals_existing_check::<8>(); }
 
+fn alias_unique_for(name: &str) {
+    let mut g = ShortNameGenerator::new(name);
+    any_gen_state(&mut g);
+    let e: [u8; SFN_SIZE] = kani::any();
+    g.add_existing(&e);
+    if let Ok(a) = g.generate() {
+        assert!(a != e);
+        assert!(alias_legal(&a));
+    }
+    kani::cover!(g.generate().is_ok());
+}
+/// C16 (uniqueness lemma, quick tier): the same lemma for fixed names of each shape (fits 8.3, too long, lossy, with
+/// and without extension, leading dot, non-ASCII) with EVERY collision state and EVERY existing entry.
+macro_rules! alias_unique_case {
+    ($name:ident, $s:expr) => {
+        #[kani::proof]
+        #[kani::unwind(24)]
+        #[kani::stub(core::slice::memchr::memchr, crate::verif_support::stubs::memchr)]
+        #[kani::stub(core::slice::memchr::memrchr, crate::verif_support::stubs::memrchr)]
+        fn $name() { alias_unique_for($s); }
+    };
+}
+alias_unique_case!(alias_unique_fits, "readme.txt");
+alias_unique_case!(alias_unique_long, "A Long File Name.html");
+alias_unique_case!(alias_unique_one_char, "x");
+alias_unique_case!(alias_unique_leading_dot, ".profile");
+alias_unique_case!(alias_unique_non_ascii, "caf\u{e9} au lait");
+alias_unique_case!(alias_unique_lossy, "a+b.c d");
+
 /// C16 (termination lemma): a retry changes the hash, clears both bitmaps and keeps everything else, so the next
 /// scan can only fail again if 13 more colliding entries exist for the NEW hash.
 fn alias_retry_progress_check<const N: usize>() {
@@ -513,14 +542,10 @@ fn lnb_sequence_check<const NS: usize>(fixed: Option<[u8; NS]>) {
         }
         if out.len() > 0 { let l = out.as_ucs2_units()[out.len() - 1]; assert!(l != 0 && l != 0xFFFF); }
     }
-    if fixed.is_none() {
-        kani::cover!(well_formed && j == 0 && out.len() == NS * 13);
-        kani::cover!(NS == 1 || (well_formed && j > 0));           // orphan slots before the run are ignored
-        kani::cover!(!well_formed && j < NS);
-    } else {
-        kani::cover!(out.len() > 0 || !well_formed || j == NS);
-        kani::cover!(out.len() == 0);
-    }
+    kani::cover!(fixed.is_some() || (well_formed && j == 0 && out.len() == NS * 13));
+    kani::cover!(fixed.is_some() || NS == 1 || (well_formed && j > 0));           // orphan slots before the run are ignored
+    kani::cover!(fixed.is_some() || (!well_formed && j < NS));
+    kani::cover!(fixed.is_none() || out.len() == 0);
     core::mem::forget(out);
 }
 /// C17/C19 (fixed-buffer build): ANY sequence of 2 / 3 long-name slots (orders 0..3, flag free) + short entry,
